@@ -150,8 +150,9 @@ func main() {
 		"non-trivial when some entry is used by two steps; distinct = distinct operation sequences"
 	r := &runner{cfg: cfg, res: res, cf: newCases()}
 	tr := &trunner{runner: r, tcf: newTCases()}
+	xr := &xrunner{runner: r, xcf: newXCases()}
 	if cfg.Replay != "" {
-		replay(r, tr)
+		replay(r, tr, xr)
 	} else {
 		rng := lib.NewRng(cfg.Seed)
 		for _, ops := range corpus() {
@@ -159,6 +160,9 @@ func main() {
 		}
 		exhaustive(r)
 		random(r, rng)
+		// routes that share entry objects / store an equal key twice (xfam.go)
+		dupkeys(xr)
+		tree(xr)
 		// results that are types (infer.go, infergen.go)
 		for _, ops := range corpusT() {
 			tr.check(ops, true, true, "corpus-types")
@@ -168,10 +172,11 @@ func main() {
 	}
 	res.CorrFiles = append(res.CorrFiles, r.cf.WriteTo(cfg.Out, "cases_heap"))
 	res.CorrFiles = append(res.CorrFiles, tr.tcf.WriteTo(cfg.Out, "cases_infer"))
+	res.CorrFiles = append(res.CorrFiles, xr.xcf.WriteTo(cfg.Out, "cases_heapx"))
 	res.Write(cfg)
 }
 
-func replay(r *runner, tr *trunner) {
+func replay(r *runner, tr *trunner, xr *xrunner) {
 	for _, in := range lib.ReplayInputs(r.cfg.Replay) {
 		var k struct {
 			Kind string `json:"kind"`
@@ -179,6 +184,10 @@ func replay(r *runner, tr *trunner) {
 		lib.Remarshal(in, &k)
 		if k.Kind == "thistory" {
 			replayT(tr, in)
+			continue
+		}
+		if k.Kind == "xhistory" {
+			replayX(xr, in)
 			continue
 		}
 		var x struct {
